@@ -11,6 +11,7 @@ ASSUMPTIONS = ["Uuid::new_v4 never repeats an id (probabilistic)", "SQLite trans
 
 
 def run(rep, W, ctx):
+    S.s_mematomic(rep, W)
     S.s_sql_closed(rep, W)
     S.s_wmc(rep, W)                      # O1
     body = W.op("add_version")
